@@ -1,6 +1,8 @@
 ------------------------------ MODULE TwapObs ------------------------------
-(* SAMPLE of the module generated by harness/props/c14.py (twap_obs_module) for Trace_SqueethTwap.tla:
-   one good observation (window 2000, 2000, 2500) and nothing else.  Do not edit; regenerated per run in scratch. *)
+(* SAMPLE of the module generated per run (in scratch) by harness/props/c14.py twap_obs_module for Trace_SqueethTwap.tla:
+   get_twap_price values recorded from the real code, with the prices of the window the spec denotes. *)
 EXTENDS Num
-Obs == << [g |-> <<1, <<4347, 3469, 1330, 5443, 2>>, <<0, 0, 0, 1>>>>, ps |-> <<QI(2000), QI(2000), QI(2500)>>] >>
+Obs == <<
+  [g |-> <<1, <<1861, 1594, 3450, 7217, 107>>, <<0, 0, 0, 500>>>>, ps |-> <<<<1, <<2000>>, <<1>>>>, <<1, <<2000>>, <<1>>>>, <<1, <<2500>>, <<1>>>>>>]
+>>
 =============================================================================
